@@ -15,7 +15,7 @@ from dataclasses import dataclass, field
 from typing import Any, Dict, List, Optional, Tuple
 
 from ..consteval import ConstEval, EnumVal, StructVal, enum_members
-from ..core import AnalysisError, ap, atoms, calls, norm, src, walk, FUNC_TYPES
+from ..core import AnalysisError, ap, atoms, calls, kw, norm, src, walk, FUNC_TYPES
 
 OBJ = "hippolyzer/lib/base/objects.py"
 TMPL = "hippolyzer/lib/base/templates.py"
@@ -464,6 +464,34 @@ def run(ctx):
         extra = [a for a in v.adapters if a not in allowed and a[:1].isupper()]
         ctx.ob("C13.R2", f"{tf['key']}: fast-path adapters named by the template", not extra, ctx.w(fi, ff["node"]),
                f"fast path applies {extra}, template field is {norm(tf['node'])}")
+    # enum-adapted rows: the template's se.IntEnum rejects an unknown wire value only in strict mode; the fast reader
+    # rejects one only where it calls the enum class on the value.  The template may not reject what the fast path accepts.
+    ie = repo.cls("IntEnum", SER)
+    ie_init = ie.methods.get("__init__")
+    ctx.require(ie_init is not None, "C13.R2: serialization.IntEnum.__init__ vanished")
+    ia = ie_init.node.args
+    pos_params = [a.arg for a in ia.args][1:]
+    defaults = dict(zip([a.arg for a in ia.args][len(ia.args) - len(ia.defaults):], ia.defaults))
+    defaults.update({k.arg: d for k, d in zip(ia.kwonlyargs, ia.kw_defaults) if d is not None})
+    evs = ConstEval(repo, repo.module(SER))
+    n_enum_rows = 0
+    for tf in tfields:
+        for c in [n for n in ast.walk(tf["node"]) if isinstance(n, ast.Call) and strip_mod(ap(n.func) or "") == "IntEnum"]:
+            n_enum_rows += 1
+            strict_node = kw(c, "strict")
+            if strict_node is None and "strict" in pos_params and len(c.args) > pos_params.index("strict"):
+                strict_node = c.args[pos_params.index("strict")]
+            if strict_node is None:
+                strict_node = defaults.get("strict")
+            strict = evs.ev(strict_node) if strict_node is not None else None
+            ff = by_key.get(tf["key"])
+            enum_name = strip_mod(src(c.args[0])) if c.args else "?"
+            fast_rejects = ff is not None and enum_name in ff["val"].adapters
+            ctx.ob("C13.R2", f"{tf['key']}: template enum adapter rejects no wire value the fast reader accepts",
+                   strict is False or (strict is True and fast_rejects), ctx.w(tci.module, c),
+                   f"se.IntEnum({enum_name}) is strict={strict!r} here (explicit argument or the constructor's default) while "
+                   f"the fast reader {'wraps' if fast_rejects else 'keeps the raw value of'} {tf['key']}")
+    ctx.floor("C13.R2", "se.IntEnum rows in the compressed template", n_enum_rows, 2)
     # every stream position read is delivered to some key (nothing silently skipped -> offsets agree)
     consumed = set(range(interp.pos))
     lost = sorted(consumed - set(used_positions))
